@@ -172,9 +172,11 @@ def history (st : St) (op : String) (toks : List String) (t : Int) (e : Exp) : S
       | none => (s1, [])
     else (s1, [])
   let (s3, rm, panicked) := runAutos t (tags1.map (·.2)) (newMans.map (·.m)) s2 rm0
+  -- a write that published a version reports ok whatever the auto-cleanup hook did (its error is only logged)
   let status :=
     if panicked then "panic"
-    else if e.status = "panic" then "panic_unexpected" else e.status
+    else if e.status = "panic" then "panic_unexpected"
+    else if !newMans.isEmpty && e.status.startsWith "err_" then "ok" else e.status
   ({ store := s3, tags := tags1, tableExists := st.tableExists || op = "create", held := held1 },
     status ++ " M=" ++ e.m ++ " F=" ++ e.f ++ " R=" ++ showPaths rm)
 
